@@ -9,7 +9,7 @@
    All theorems quantify over every history, every behaviour table and every positive random stream. *)
 Require Import ZArith List Bool Lia Sorted.
 Require Import Verif.gen.Consts_loop Verif.LoopModel Verif.LoopProofs_C08a Verif.LoopProofs_C08b Verif.LoopProofs_C08c
-               Verif.LoopProofs_C08d Verif.LoopProofs_C08e Verif.LoopProofs_C08f.
+               Verif.LoopProofs_C08d Verif.LoopProofs_C08e Verif.LoopProofs_C08f Verif.LoopProofs_C08g.
 Import ListNotations.
 Open Scope Z_scope.
 
@@ -72,6 +72,33 @@ Theorem C08_stale_poll_event_dropped : forall st data bits n e, nth_error (polls
   p_check e <> data / TWO32 -> poll_event (data, bits) (n, st) = (n, emit EvUsleep st).
 Proof. exact stale_poll_event_dropped. Qed.
 
+(* descriptors: an event for a watched (ACTIVE) entry puts it on the job list of its priority (C10: it is then dispatched
+   within three turns); after the callback the entry is a tombstone when the callback returned a negative value, is
+   left alone when it was deleted from inside, and otherwise is ACTIVE again with the same descriptor, check word and
+   registration - it keeps being watched until removed or until its callback returns a negative value *)
+Theorem C08_fd_event_queues : forall st i e bits n, nth_error (polls st) i = Some e ->
+  p_state e = Active -> p_fn e = true -> p_sig e = false -> p_fd e <> -1 -> Z.of_nat i < TWO32 ->
+  exists st', poll_event (p_check e * TWO32 + Z.of_nat i, bits) (n, st) = (n + 1, st') /\
+    jobq (lv st' (p_p e)) = jobq (lv st (p_p e)) ++ [QFd i] /\
+    (exists e', nth_error (polls st') i = Some e' /\ p_state e' = Joblist /\ p_uid e' = p_uid e /\ p_check e' = p_check e /\
+                p_revents e' = Z.lor (p_revents e) (epoll_to_poll bits)) /\
+    kset st' = kset st.
+Proof. exact fd_event_queues. Qed.
+Theorem C08_fd_after_callback : forall beh i st e, nth_error (polls st) i = Some e ->
+  forall r s3, callback beh 2 (p_key e) (p_fd e) (p_revents e) (emit (EvInv 2 (p_uid e)) st) = (r, s3) ->
+  forall e3, nth_error (polls s3) i = Some e3 ->
+  exists e4, nth_error (polls (dispatch beh (QFd i) st)) i = Some e4 /\ kset (dispatch beh (QFd i) st) = kset s3 /\
+    (r < 0 -> p_state e4 = Deleted /\ p_fd e4 = -1 /\ p_check e4 = 0) /\
+    (0 <= r -> p_state e3 <> Deleted ->
+       p_state e4 = Active /\ p_fd e4 = p_fd e3 /\ p_check e4 = p_check e3 /\ p_uid e4 = p_uid e3 /\ p_events e4 = p_events e3 /\ p_revents e4 = 0) /\
+    (0 <= r -> p_state e3 = Deleted -> e4 = e3).
+Proof. exact fd_after_callback. Qed.
+(* signals: the pipe entry's turn reads exactly one delivered signal and queues one clone per registration of it *)
+Theorem C08_signal_one_clone_per_delivery : forall i st g rest, sigpipe st = g :: rest ->
+  sigpipe (snd (signal_add_to_jobs i st)) = rest /\
+  fst (signal_add_to_jobs i st) = zlen (filter (fun s => s_signo s =? g) (sigs st)).
+Proof. exact signal_read_one. Qed.
+
 (* stop: every turn of a run but the last ran to its end; the run ends with the turn in which stop was requested *)
 Theorem C08_run_ends_with_stop_turn : forall beh envs rs st, exists tis t, snd (run_go beh envs rs st) = tis ++ [t] /\
   (forall x, In x tis -> ti_returned x = false).
@@ -110,6 +137,9 @@ Print Assumptions C08_timer_del_logs.
 Print Assumptions C08_signal_del_logs.
 Print Assumptions C08_stale_timer_rejected.
 Print Assumptions C08_stale_poll_event_dropped.
+Print Assumptions C08_fd_event_queues.
+Print Assumptions C08_fd_after_callback.
+Print Assumptions C08_signal_one_clone_per_delivery.
 Print Assumptions C08_run_ends_with_stop_turn.
 Print Assumptions C08_signal_del_refuted.
 Print Assumptions C08_poll_add_failure_refuted.
